@@ -16,6 +16,15 @@ import collections
 from .runner import HarnessError
 
 
+class Divergence(Exception):
+    """Replaying an already validated prefix on a fresh object did not behave as it did the first time: either the
+    harness is nondeterministic or the code under test carries state from one fresh object to the next."""
+
+    def __init__(self, init, hist, op, bad):
+        super().__init__('divergence while replaying validated prefix %r of %r on %r: %r' % (op, hist, init, bad))
+        self.init, self.hist, self.op, self.bad = init, list(hist), op, bad
+
+
 class Result:
     def __init__(self):
         self.states = 0
@@ -33,8 +42,7 @@ def replay(system, init, hist, validate=True):
     for op in hist:
         bad = system.step(impl, model, op)
         if bad is not None and validate:
-            raise HarnessError('divergence while replaying validated prefix %r of %r on %r: %r'
-                               % (op, hist, init, bad))
+            raise Divergence(init, hist, op, bad)
     return impl, model
 
 
